@@ -91,6 +91,9 @@ func arith(c *mon.Case, r *mon.Run, tails []int, targets []int) {
 			}
 			end := (tail + added) % mss
 			okEnd := end == target%mss
+			if p > 0 && p <= header {
+				r.Count("padburst_pairs_needing_less_than_a_header", 1)
+			}
 			if p > 0 && p <= header && end == (target+header)%mss {
 				okEnd = true // needed padding not larger than a header: target plus one frame header
 				r.Count("padburst_header_form", 1)
@@ -98,7 +101,10 @@ func arith(c *mon.Case, r *mon.Run, tails []int, targets []int) {
 			if !okEnd {
 				c.Violation("padburst/wrong-ending", fmt.Sprintf("padBurst(tail=%d,target=%d) appended %d bytes: burst ends at residue %d, want %d (needed padding %d)", tail, target, added, end, target%mss, p), map[string]int{"tail": tail, "target": target, "added": added})
 			}
-			if added < 0 || added > mss+2*header {
+			if added > mss+2*header {
+				r.Count("padburst_more_than_todays_maximum", 1) // recorded, not judged: how the target is reached is not fixed
+			}
+			if added < 0 || added > 4*mss { // sanity bound only, far beyond any way of reaching the next target
 				c.Violation("padburst/too-much", fmt.Sprintf("padBurst(tail=%d,target=%d) appended %d bytes", tail, target, added), nil)
 			}
 			if p == 0 && added != 0 {
@@ -227,8 +233,13 @@ func judgeBursts(c *mon.Case, r *mon.Run, p params, side string, bs []burst, val
 				r.Count("burst_on_table", 1)
 			}
 			if single > 0 && single > header {
-				// single-valued table: the length of the burst is predicted,
-				// not only its residue class
+				// single-valued table {v}: the residue of the burst is v or v+21 (judged
+				// above).  How many bytes it takes to get there is the implementation's
+				// business (which frames carry the padding, whether the +21 form is used
+				// at all): the length today's code produces is computed and only counted,
+				// so that a change of the framing strategy shows in the evidence without
+				// raising an alarm.  What is judged is the physical lower bound: the
+				// payload and one header per 1427 bytes of it cannot take fewer bytes.
 				need := ((b.app+1426)/1427)*header + b.app // payload frames
 				if b.app == 0 {
 					need = 0
@@ -242,13 +253,19 @@ func judgeBursts(c *mon.Case, r *mon.Run, p params, side string, bs []burst, val
 				if pad > 0 && pad <= header {
 					want = need + pad + header + mss
 				}
-				if total != want {
-					c.Violation("burst-length/single-valued-table", fmt.Sprintf("%s: table is {%d}; app write %d needs %d frame bytes, burst should be %d bytes, is %d; %s", side, single, b.app, need, want, total, p), wit)
+				r.Count("single_valued_table_bursts", 1)
+				if total < need {
+					c.Violation("burst-shorter-than-its-payload/single-valued-table", fmt.Sprintf("%s: table is {%d}; app write %d needs at least %d frame bytes, burst is %d bytes; %s", side, single, b.app, need, total, p), wit)
+				} else if total == want {
+					r.Count("burst_length_as_predicted_from_todays_framing", 1)
 				} else {
-					r.Count("burst_length_predicted_exactly", 1)
+					r.Count("burst_length_other_than_todays_framing", 1)
 				}
 			}
 		case 2:
+			if vals[0] {
+				r.Count("paranoid_bursts_on_tables_containing_zero", 1)
+			}
 			for _, w := range b.writes {
 				r.Distinct("paranoid_write_sizes", fmt.Sprint(w))
 				okw := w > 0 && vals[w]
